@@ -61,17 +61,25 @@ BINOPS = {'&': 'Oand', '|': 'Oor', '^': 'Oxor', '<<': 'Oshl', '>>': 'Oshr', '+':
           '<': 'Olt', '>': 'Ogt', '<=': 'Ole', '>=': 'Oge', '&&': 'Oland', '||': 'Olor'}
 UNOPS = {'~': 'Onot', '-': 'Oneg', '!': 'Olnot'}
 
-def expr(n, tables=()):
+def expr(n, tables=(), env=None, leaf=None):
+    """env: local variable name -> already translated expression (locals are substituted);
+    leaf: hook tried first on every node (returns a translation or None)"""
+    if leaf is not None:
+        r = leaf(n)
+        if r is not None:
+            return r
     k = n['kind']
     inner = n.get('inner', [])
+    if k == 'DeclRefExpr' and env is not None and n['referencedDecl']['name'] in env:
+        return env[n['referencedDecl']['name']]
     if k in ('ParenExpr', 'ConstantExpr'):
-        return expr(inner[0], tables)
+        return expr(inner[0], tables, env, leaf)
     if k == 'ImplicitCastExpr' or k == 'CStyleCastExpr':
         ck = n.get('castKind')
         if ck in ('LValueToRValue', 'NoOp'):
-            return expr(inner[0], tables)
+            return expr(inner[0], tables, env, leaf)
         if ck == 'IntegralCast' or ck == 'IntegralToBoolean':
-            return '(Cast %s %s)' % (coq_ty(ctype(n)), expr(inner[0], tables))
+            return '(Cast %s %s)' % (coq_ty(ctype(n)), expr(inner[0], tables, env, leaf))
         raise Untranslatable('cast kind %s' % ck)
     if k == 'DeclRefExpr':
         return '(Var "%s")' % n['referencedDecl']['name']
@@ -83,21 +91,21 @@ def expr(n, tables=()):
         op = n['opcode']
         if op not in BINOPS:
             raise Untranslatable('binary operator ' + op)
-        return '(Bin %s %s %s %s)' % (BINOPS[op], coq_ty(ctype(n)), expr(inner[0], tables), expr(inner[1], tables))
+        return '(Bin %s %s %s %s)' % (BINOPS[op], coq_ty(ctype(n)), expr(inner[0], tables, env, leaf), expr(inner[1], tables, env, leaf))
     if k == 'UnaryOperator':
         op = n['opcode']
         if op not in UNOPS:
             raise Untranslatable('unary operator ' + op)
-        return '(Un %s %s %s)' % (UNOPS[op], coq_ty(ctype(n)), expr(inner[0], tables))
+        return '(Un %s %s %s)' % (UNOPS[op], coq_ty(ctype(n)), expr(inner[0], tables, env, leaf))
     if k == 'ArraySubscriptExpr':
         base = inner[0]
         while base['kind'] in ('ImplicitCastExpr', 'ParenExpr'):
             base = base['inner'][0]
         if base['kind'] != 'DeclRefExpr':
             raise Untranslatable('subscript base')
-        return '(Idx "%s" %s)' % (base['referencedDecl']['name'], expr(inner[1], tables))
+        return '(Idx "%s" %s)' % (base['referencedDecl']['name'], expr(inner[1], tables, env, leaf))
     if k == 'ConditionalOperator':
-        return '(Cond %s %s %s)' % tuple(expr(x, tables) for x in inner)
+        return '(Cond %s %s %s)' % tuple(expr(x, tables, env, leaf) for x in inner)
     if k == 'UnaryExprOrTypeTraitExpr' and n.get('name') == 'sizeof':
         at = n.get('argType')
         if at:
@@ -124,6 +132,38 @@ def single_return(fn):
     if len(st) != 1 or st[0]['kind'] != 'ReturnStmt':
         raise Untranslatable('body is not a single return')
     return st[0]['inner'][0]
+
+def body_expr(fn, env=None, leaf=None):
+    """function body of the shape { initialised local declarations }* return e: e with the locals substituted
+    (the initialiser's implicit conversion to the declared type is part of the AST)"""
+    body = [c for c in fn.get('inner', []) if c['kind'] == 'CompoundStmt']
+    if len(body) != 1:
+        raise Untranslatable('no body')
+    st = body[0].get('inner', [])
+    env = dict(env or {})
+    if not st or st[-1]['kind'] != 'ReturnStmt':
+        raise Untranslatable('body does not end in a return')
+    for d in st[:-1]:
+        if d['kind'] != 'DeclStmt':
+            raise Untranslatable('statement %s before the return' % d['kind'])
+        for v in d.get('inner', []):
+            if v['kind'] != 'VarDecl' or not v.get('inner'):
+                raise Untranslatable('local without initialiser')
+            init = v['inner'][-1]
+            t = ctype(v)
+            env[v['name']] = '(Cast %s %s)' % (coq_ty(t), expr(init, (), env, leaf))
+    return st[-1]['inner'][0], env
+
+def callee_name(call):
+    c = call['inner'][0]
+    while c['kind'] in ('ImplicitCastExpr', 'ParenExpr'):
+        c = c['inner'][0]
+    return c['referencedDecl']['name'] if c['kind'] == 'DeclRefExpr' else None
+
+def strip_casts(n):
+    while n['kind'] in ('ImplicitCastExpr', 'ParenExpr', 'CStyleCastExpr'):
+        n = n['inner'][0]
+    return n
 
 def params(fn):
     return [(c['name'], ctype(c)) for c in fn.get('inner', []) if c['kind'] == 'ParmVarDecl']
